@@ -1,14 +1,14 @@
 #!/bin/bash
 # determinism.sh [count] : every seed of every profile is executed twice, in different worker processes,
-# at worker counts 16 / 5 / 1 (plain) and 8 / 3 (asan); the per-seed (H_sched, H_obs, H_shape, ending, violation classes)
+# at worker counts 16 / 5 / 1 (plain), 16 / 3 (omp: the OpenMP build with the simulator's own team) and 8 / 3 (asan); the per-seed (H_sched, H_obs, H_shape, ending, violation classes)
 # records must agree exactly.  ASLR is on.  Exit 0 if all agree.
 cd "$(dirname "$0")/.."
 N=${1:-2000}
 rc=0
 mkdir -p build/tmp
-for FLAV in plain asan; do
+for FLAV in plain asan omp; do
   BD=$(sim/build.sh $FLAV 2>/dev/null | tail -1)
-  if [ $FLAV = plain ]; then WS="16 5 1"; CNT=$N; else WS="8 3"; CNT=$((N/5)); fi
+  if [ $FLAV = plain ]; then WS="16 5 1"; CNT=$N; elif [ $FLAV = omp ]; then WS="16 3"; CNT=$((N/2)); else WS="8 3"; CNT=$((N/5)); fi
   for P in ssv strf pipe term mem sing svx hist leak symleak sym carry forest tiny; do
     base=$((RANDOM * 8))
     i=0
